@@ -458,6 +458,13 @@ impl Association {
     }
 
     pub(crate) fn on_integrity_scan_complete(&mut self) {
+        // the scan only starts when no restart handling is pending, so if it is pending now the
+        // restart was observed while the scan was running: it has to be repeated after the
+        // restart bit was cleared
+        if self.auto_tasks.clear_restart_iin.is_pending() {
+            self.auto_tasks.integrity_scan = AutoTaskState::Pending;
+            return;
+        }
         self.auto_tasks.integrity_scan.done();
         self.startup_integrity_done = true;
     }
@@ -500,6 +507,12 @@ impl Association {
     }
 
     pub(crate) fn on_enable_unsolicited_response(&mut self, _iin: Iin) {
+        // same as for the integrity scan: a restart observed while the request was
+        // outstanding calls for another one after the restart bit was cleared
+        if self.auto_tasks.clear_restart_iin.is_pending() {
+            self.auto_tasks.enabled_unsolicited = AutoTaskState::Pending;
+            return;
+        }
         self.auto_tasks.enabled_unsolicited.done();
     }
 
